@@ -549,6 +549,177 @@ def c04_case(ctx, book, case_seed):
                     return
 
 
+# ---------------------------------------------------------------------------------------------- C12
+
+def _sheet_files(z):
+    """{sheet name: path of its xml inside the archive}"""
+    book = z.read('xl/workbook.xml').decode('utf-8')
+    rels = z.read('xl/_rels/workbook.xml.rels').decode('utf-8')
+    import html
+    targets = {}
+    for m in re.finditer(r'<Relationship\b[^>]*>', rels):
+        rid, target = re.search(r'\bId="([^"]+)"', m.group(0)), re.search(r'\bTarget="([^"]+)"', m.group(0))
+        if rid and target:
+            t = target.group(1)
+            targets[rid.group(1)] = t.lstrip('/') if t.startswith('/') else 'xl/' + t
+    out = {}
+    for m in re.finditer(r'<sheet\b[^>]*>', book):
+        name, rid = re.search(r'\bname="([^"]*)"', m.group(0)), re.search(r'\br:id="([^"]+)"', m.group(0))
+        if name and rid and rid.group(1) in targets:
+            out[html.unescape(name.group(1))] = targets[rid.group(1)]
+    return out
+
+
+def alter_stored_number(src, dst, sheet, coord, new):
+    """copy the workbook with the stored (cached) numeric result of one formula cell replaced; False when
+    the cell does not have the plain <c r=".."><f>..</f><v>number</v></c> form"""
+    import zipfile
+    with zipfile.ZipFile(src) as z:
+        files = _sheet_files(z)
+        if sheet not in files:
+            return False
+        xml = z.read(files[sheet]).decode('utf-8')
+        pat = re.compile(r'(<c r="%s"(?![^>]*\bt=)[^>]*>\s*<f\b(?:[^>]*/>|[^>]*>.*?</f>)\s*<v>)([^<]*)(</v>)' % coord,
+                         re.S)
+        m = pat.search(xml)
+        if not m:
+            return False
+        try:
+            float(m.group(2))
+        except ValueError:
+            return False
+        xml = xml[:m.start(2)] + repr(float(new)) + xml[m.end(2):]
+        with zipfile.ZipFile(dst, 'w', zipfile.ZIP_DEFLATED) as out:
+            for item in z.infolist():
+                data = z.read(item.filename)
+                out.writestr(item, xml.encode('utf-8') if item.filename == files[sheet] else data)
+    return True
+
+
+@functools.lru_cache(maxsize=None)
+def _stored_numbers(book):
+    """{address: stored numeric result} of the formula cells, read with openpyxl (data_only)"""
+    import openpyxl
+    with warnings.catch_warnings():
+        warnings.simplefilter('ignore')
+        data = openpyxl.load_workbook(_path(book), data_only=True)
+    info = scan(book)
+    out = {}
+    for ws in data:
+        for row in ws.iter_rows():
+            for c in row:
+                a = wb.addr(ws.title, c.coordinate)
+                if a in info['text'] and isinstance(c.value, (int, float)) and not isinstance(c.value, bool):
+                    out[a] = c.value
+    return out
+
+
+@functools.lru_cache(maxsize=None)
+def _baseline_report_empty(book):
+    from pycel import ExcelCompiler
+    logging.disable(logging.CRITICAL)
+    with warnings.catch_warnings():
+        warnings.simplefilter('ignore')
+        import contextlib
+        import io
+        try:
+            with contextlib.redirect_stdout(io.StringIO()):
+                return ExcelCompiler(filename=_path(book)).validate_calcs() == {}
+        except Exception:
+            return False
+
+
+def c12_case(ctx, book, case_seed):
+    """validate_calcs on a shipped workbook whose stored result of one formula cell was altered in the file"""
+    import networkx as nx
+    from pycel import ExcelCompiler
+    rng = case_rng(book, case_seed)
+    if not _baseline_report_empty(book):
+        ctx.count('real_book_baseline_not_empty')       # the unaltered workbook does not validate: nothing to learn
+        return
+    stored = _stored_numbers(book)
+    unstable = _unstable(book)
+    cells = [a for a in sorted(stored) if a not in unstable]
+    if not cells:
+        return
+    cell = rng.choice(cells)
+    sheet, coord = cell.rsplit('!', 1)
+    sheet = sheet.strip("'").replace("''", "'")
+    old = stored[cell]
+    new = old * 2 + 1 if rng.random() < 0.5 else old + rng.choice([1, -1]) * max(1.0, abs(old) * 0.01)
+    case = {'kind': 'real-book', 'book': book, 'case_seed': case_seed, 'cell': cell, 'old': old, 'new': new}
+    dst = os.path.join(ctx.tmpdir, 'books')
+    os.makedirs(dst, exist_ok=True)
+    dst = os.path.join(dst, f'{book}-altered.xlsx')
+    if not alter_stored_number(_path(book), dst, sheet, coord, new):
+        ctx.count('real_book_cell_not_alterable')
+        return
+    logging.disable(logging.CRITICAL)
+    how = rng.choice(['all', 'cell', 'dependant'])
+    try:
+        with warnings.catch_warnings():
+            warnings.simplefilter('ignore')
+            comp = ExcelCompiler(filename=dst)
+            scout = compile_primed(ctx, book)
+        wb.outcome(scout.evaluate, cell)
+        outputs = None
+        if how == 'cell':
+            outputs = [cell]
+        elif how == 'dependant':
+            # an output that reads the altered cell (found on a scout model with every formula built)
+            for a in scan(book)['formulas']:
+                wb.outcome(scout.evaluate, a)
+            node = scout.cell_map.get(cell)
+            deps = sorted(n.address.address for n in nx.descendants(scout.dep_graph, node)
+                          if ':' not in n.address.address) if node is not None and node in scout.dep_graph else []
+            deps = [d for d in deps if d not in unstable]
+            outputs = [rng.choice(deps)] if deps else [cell]
+        import contextlib
+        import io
+        with contextlib.redirect_stdout(io.StringIO()):
+            report = comp.validate_calcs(output_addrs=outputs) if outputs else comp.validate_calcs()
+    except Exception as exc:
+        if not wb.raised_outside_harness(exc):
+            raise
+        ctx.violation('real-workbook/validate_calcs-raises', f'{book}: {wb.describe(exc)}', case)
+        return
+    finally:
+        if os.path.exists(dst):
+            os.remove(dst)
+    ctx.count('real_book_validations')
+    ctx.count('real_outputs:' + how)
+    ctx.count('real_book:' + book)
+    ctx.case(('real', book, case_seed))
+    mism = report.get('mismatch', {})
+    if cell not in mism:
+        ctx.violation('real-workbook/altered-cell-not-reported',
+                      f'{book}: stored result of {cell} {scan(book)["text"].get(cell)!r:.100} changed from {old!r} to '
+                      f'{new!r} in the file (outputs: {outputs or "all"}); the report lists {list(mism)[:6]} and the '
+                      f'sections {[k for k in report if k != "mismatch"]}', case)
+        return
+    m = mism[cell]
+    if not wb.same(m.original, new, rel=1e-12) or not wb.same(m.calced, old, rel=1e-3):
+        ctx.violation('real-workbook/mismatch-entry-wrong-values',
+                      f'{book}: {cell}: stored {new!r}, result in the unaltered file {old!r}; the report says '
+                      f'original={m.original!r} calced={m.calced!r}', case)
+        return
+    # every other reported cell depends on it (dependency relation of a model with the whole workbook built)
+    others = [a for a in mism if a != cell]
+    if others:
+        for a in scan(book)['formulas']:
+            wb.outcome(scout.evaluate, a)
+        node = scout.cell_map.get(cell)
+        deps = {n.address.address for n in nx.descendants(scout.dep_graph, node)} \
+            if node is not None and node in scout.dep_graph else set()
+        for a in others:
+            ctx.count('real_other_reported_cells_checked')
+            if a not in deps and a not in unstable:
+                ctx.violation('real-workbook/unrelated-cell-reported',
+                              f'{book}: only the stored result of {cell} was altered, but the report also lists '
+                              f'{a}, which does not depend on it', case)
+                return
+
+
 def run_cases(ctx, fn, books, per_shard, fraction=0.3):
     """(book, case_seed) pairs spread over the shards: at most ``per_shard`` cases and ``fraction`` of the budget"""
     stop_at = ctx.budget * (1 - fraction)
